@@ -103,6 +103,31 @@ fn pb_preflight(spec: &Value) -> Value {
     }
 }
 
+/// C28 counterexample replay: build a real plonky2 CircuitConfig with the given fields and ask the REAL validate_circuit_config
+fn cfg_policy(spec: &Value) -> Value {
+    let g = |k: &str| spec[k].as_u64().unwrap() as usize;
+    let mut c = plonky2::plonk::circuit_data::CircuitConfig::standard_recursion_config();
+    c.num_wires = g("num_wires"); c.num_routed_wires = g("num_routed_wires"); c.security_bits = g("security_bits");
+    c.num_challenges = g("num_challenges"); c.max_quotient_degree_factor = g("max_quotient_degree_factor");
+    c.fri_config.rate_bits = g("rate_bits"); c.fri_config.cap_height = g("cap_height"); c.fri_config.num_query_rounds = g("num_query_rounds");
+    let policy = c.num_challenges > 0 && c.security_bits > 0 && c.fri_config.num_query_rounds > 0 && c.num_wires >= 135
+        && 37 <= c.num_routed_wires && c.num_routed_wires <= c.num_wires && c.max_quotient_degree_factor >= 7
+        && c.fri_config.rate_bits <= 8 && c.fri_config.cap_height <= 8 && c.max_quotient_degree_factor <= (1usize << c.fri_config.rate_bits);
+    match std::panic::catch_unwind(|| zk_circuits_common::circuit::validate_circuit_config(&c).is_ok()) {
+        Ok(a) => json!({"accepted": a, "policy": policy, "panicked": false}),
+        Err(_) => json!({"accepted": false, "policy": policy, "panicked": true}),
+    }
+}
+
+/// C29 counterexample replay: the REAL validate_proof_count
+fn proof_count(spec: &Value) -> Value {
+    let n = spec["count"].as_u64().unwrap() as usize;
+    match std::panic::catch_unwind(|| qp_wormhole_inputs::validate_proof_count(n, "n").is_ok()) {
+        Ok(a) => json!({"accepted": a, "policy": 1 <= n && n <= 64, "panicked": false}),
+        Err(_) => json!({"accepted": false, "policy": 1 <= n && n <= 64, "panicked": true}),
+    }
+}
+
 fn main() {
     let args: Vec<String> = std::env::args().collect();
     if args.len() < 3 { eprintln!("usage: vreplay <kind> <file.json>"); std::process::exit(2); }
@@ -111,6 +136,8 @@ fn main() {
         "pb-wrapper" => pb_wrapper(&spec),
         "pub-wrapper" => pub_wrapper(&spec),
         "pb-preflight" => pb_preflight(&spec),
+        "cfg-policy" => cfg_policy(&spec),
+        "proof-count" => proof_count(&spec),
         k => { eprintln!("unknown kind {k}"); std::process::exit(2); }
     };
     println!("{}", out);
